@@ -11,6 +11,7 @@ import (
 	"sync"
 	"testing"
 	"testing/synctest"
+	"time"
 
 	goat "github.com/avos-io/goat"
 	"google.golang.org/protobuf/proto"
@@ -23,7 +24,7 @@ import (
 // run to quiescence and the returns and the calls still blocked are recorded.
 
 type chAct struct {
-	Op   string `json:"op"` // W, R, CW, CR, X
+	Op   string `json:"op"` // W, R, CW, CR, X, T (the virtual clock advances: no action of the model)
 	Done bool   `json:"done,omitempty"`
 	I    int    `json:"i,omitempty"`
 	V    int64  `json:"v,omitempty"`
@@ -39,9 +40,29 @@ func (a chAct) coq() string {
 		return fmt.Sprintf("CCancelW %d%%nat", a.I)
 	case "CR":
 		return fmt.Sprintf("CCancelR %d%%nat", a.I)
+	case "T":
+		return ""
 	default:
 		return "CClose"
 	}
+}
+
+// trWedgeStep, when set, is called at every step of a lock-step scenario of the tr rigs: the progress signal of
+// guardWedge (a scenario that stops making steps while a goroutine waits for a lock is reported as wedged and
+// attributed to its index instead of hanging the rig until its timeout)
+var trWedgeStep func()
+
+func trStep() {
+	if trWedgeStep != nil {
+		trWedgeStep()
+	}
+}
+
+// trGuard starts the watcher for scenario idx; the returned function ends it
+func trGuard(em *Emitter, idx int, kind string, desc any, tags []string) func() {
+	step, stop := guardWedge(em, idx, kind, desc, tags)
+	trWedgeStep = step
+	return func() { trWedgeStep = nil; stop() }
 }
 
 type chCall struct {
@@ -84,7 +105,10 @@ func runChan(t *testing.T, capacity int, acts []chAct) (run *chRun, pw, pr []int
 		rw := goat.NewGoatOverChannel(ch, ch)
 		var wg sync.WaitGroup
 		for _, a := range acts {
+			trStep()
 			switch a.Op {
+			case "T":
+				time.Sleep(100 * time.Millisecond) // virtual: a timer due by then fires
 			case "W":
 				ctx, cancel := context.WithCancel(context.Background())
 				if a.Done {
@@ -229,7 +253,9 @@ func TestC19Chan(t *testing.T) {
 			if len(prefix) > 0 {
 				if want(idx) {
 					em.Marker("begin", idx)
+					unguard := trGuard(em, idx, "chan-lockstep", map[string]any{"cap": capacity, "acts": prefix}, []string{fmt.Sprintf("chan-cap:%d", capacity)})
 					run, w, r, bad := runChan(t, capacity, prefix)
+					unguard()
 					pw, pr = w, r
 					if run.aborted {
 						em.Marker("end", idx)
@@ -256,6 +282,9 @@ func TestC19Chan(t *testing.T) {
 				return
 			}
 			ext := []chAct{{Op: "R"}, {Op: "R", Done: true}}
+			if len(prefix) > 0 && prefix[len(prefix)-1].Op != "T" {
+				ext = append(ext, chAct{Op: "T"})
+			}
 			if !closed {
 				next++
 				ext = append(ext, chAct{Op: "W", V: int64(nW + 1)}, chAct{Op: "W", V: int64(nW + 1), Done: true})
